@@ -141,18 +141,20 @@ E("join_compound", 2, lambda S, **kw: etl.join(S[0], etl.rename(S[1], {"v": "v2"
   "sorted presorted", presort=("k", "j"))
 E("join_lrkey", 2, lambda S, **kw: etl.join(S[0], etl.rename(S[1], {"k": "k2", "v": "v2", "s": "s2", "j": "j2"}),
                                              lkey="k", rkey="k2", lprefix="l_", rprefix="r_", **kw), "sorted presorted", presort="k")
-E("join_natural", 2, lambda S, **kw: etl.join(S[0], etl.cut(S[1], "k", "v"), **kw), "sorted")
+E("join_natural", 2, lambda S, **kw: etl.join(S[0], etl.cut(S[1], "k", "v"), **kw), "sorted presorted", presort=("k", "v"))
 E("outerjoin_missing", 2, lambda S, **kw: etl.outerjoin(S[0], etl.rename(S[1], _RN), key="k", missing="M", **kw),
   "sorted presorted", presort="k")
 E("crossjoin", 2, lambda S: etl.crossjoin(S[0], S[1]), "")
 E("crossjoin_prefix", 2, lambda S: etl.crossjoin(S[0], S[1], prefix=True), "")
 E("unjoin_left", 1, lambda S, **kw: etl.unjoin(S[0], "s", key="k", **kw)[0], "sorted rect")
 E("unjoin_right", 1, lambda S, **kw: etl.unjoin(S[0], "s", key="k", **kw)[1], "sorted rect")
-E("unjoin_nokey_left", 1, lambda S, **kw: etl.unjoin(S[0], "s", **kw)[0], "sorted rect")
-E("unjoin_nokey_right", 1, lambda S, **kw: etl.unjoin(S[0], "s", **kw)[1], "sorted rect")
+E("unjoin_nokey_left", 1, lambda S, **kw: etl.unjoin(S[0], "s", **kw)[0], "sorted presorted rect", presort="s")
+E("unjoin_nokey_right", 1, lambda S, **kw: etl.unjoin(S[0], "s", **kw)[1], "sorted presorted rect", presort="s")
 for _nm in ["hashjoin", "hashleftjoin", "hashrightjoin", "hashantijoin", "hashlookupjoin"]:
     E(_nm, 2, lambda S, _nm=_nm: getattr(etl, _nm)(S[0], etl.rename(S[1], _RN), key="k"),
       "hash" + (" rect" if _nm == "hashantijoin" else ""))
+for _nm in ["hashjoin", "hashleftjoin", "hashrightjoin"]:
+    E(_nm + "_kw", 2, lambda S, _nm=_nm, **kw: getattr(etl, _nm)(S[0], etl.rename(S[1], _RN), key="k", **kw), "hash hashcache")
 E("hashjoin_nocache", 2, lambda S: etl.hashjoin(S[0], etl.rename(S[1], _RN), key="k", cache=False), "hash")
 # ---- set operations -------------------------------------------------------------------------
 E("complement", 2, lambda S, **kw: etl.complement(S[0], S[1], **kw), "sorted presorted rect", presort=None)
@@ -212,13 +214,13 @@ E("splitdown", 1, lambda S: etl.splitdown(S[0], "s", "x"), "stream rect")
 # ---- reshape --------------------------------------------------------------------------------
 E("melt", 1, lambda S: etl.melt(S[0], key="k"), "stream")
 E("melt_vars", 1, lambda S: etl.melt(S[0], key=["k", "j"], variables=["v"]), "stream")
-E("recast", 1, lambda S, **kw: etl.recast(etl.melt(S[0], key=["k", "j"]), key=["k", "j"], **kw), "sorted dynhdr rect",
+E("recast", 1, lambda S: etl.recast(etl.melt(S[0], key=["k", "j"]), key=["k", "j"]), "dynhdr rect",
   empty=[("k", "j")])
-E("recast_fixed", 1, lambda S, **kw: etl.recast(etl.melt(S[0], key=["k", "j"]), key=["k", "j"], variablefield="variable",
-                                                 valuefield="value", samplesize=3, reducers={"v": list}, **kw), "sorted dynhdr rect",
+E("recast_fixed", 1, lambda S: etl.recast(etl.melt(S[0], key=["k", "j"]), key=["k", "j"], variablefield="variable",
+                                                 valuefield="value", samplesize=3, reducers={"v": list}), "dynhdr rect",
   empty=[("k", "j")])
 E("transpose", 1, lambda S: etl.transpose(S[0]), "dynhdr rect", empty=[("k",), ("j",), ("v",), ("s",)])
-E("pivot", 1, lambda S, **kw: etl.pivot(S[0], "k", "s", "v", len, **kw), "sorted presorted dynhdr rect", presort="k",
+E("pivot", 1, lambda S, **kw: etl.pivot(S[0], "k", "s", "v", len, **kw), "sorted presorted dynhdr rect", presort=("k", "s"),
   empty=[("k",)])
 E("flatten_unflatten", 1, lambda S: etl.unflatten(etl.flatten(S[0]), 4), "stream rect", ahead=6)
 E("unflatten_field", 1, lambda S: etl.unflatten(S[0], "v", 2), "stream", ahead=4, empty=[("f0", "f1")])
